@@ -95,10 +95,14 @@ def rand_op(rnd, n):
     return ('floordivS', i, rnd.choice([2.0, 0.5, 1.0]))
 
 
+FRAME_BREAKS = []
+
+
 def run_history(ops):
     """returns (driver lines, [(idx, TM, TAA)], first coherence violation (step, text) or None, exception or None)"""
     st = tmh.Store()
     lines, states, viol = ['tm.reset'], [None], None
+    prev = {}
     for n, op in enumerate(ops):
         ill = False
         try:
@@ -116,6 +120,21 @@ def run_history(ops):
             e = tmh.coherence_error(TM, TAA)
             if e:
                 viol = (n, e)
+        # every OTHER object of the store: the model says an operation changes its target only, so a bystander whose matrix or
+        # six-vector changed is a broken frame condition, and it must still be coherent (the property is about every object)
+        for j in range(len(st.objs)):
+            try:
+                TMj, TAAj = st.state(j)
+            except Exception:
+                continue
+            b = TMj.tobytes() + TAAj.tobytes()
+            if j != idx and j in prev and prev[j] != b:
+                FRAME_BREAKS.append((n, j, op[0]))
+                if viol is None:
+                    e = tmh.coherence_error(TMj, TAAj)
+                    if e:
+                        viol = (n, 'bystander object %d: %s' % (j, e))
+            prev[j] = b
     return lines, states, viol, None
 
 
@@ -165,7 +184,12 @@ def _worker(hists):
     all_lines, index = [], []
     results = []
     for h in hists:
+        del FRAME_BREAKS[:]
         lines, states, viol, exc = run_history(h)
+        if FRAME_BREAKS and len(out['mism']) < 5:
+            n, j, kind = FRAME_BREAKS[0]
+            out['mism'].append({'frame_condition': 'operation %s (step %d) changed object %d, which is not its target; the model changes the target only' % (kind, n, j),
+                                'history': [repr(o)[:120] for o in h[:n + 1]]})
         results.append((h, lines, states, viol, exc))
         index.append((len(all_lines), len(lines)))
         all_lines += lines
